@@ -216,7 +216,7 @@ impl Substitute for syn::TypeBareFn {
             iproduct!(lifetimes, inputs, output)
                 .map(|(lifetimes, inputs, output)| Self {
                     lifetimes,
-                    inputs: inputs.into_iter().collect(),
+                    inputs: repunctuate(&self.inputs, inputs),
                     output,
                     ..self.clone()
                 })
@@ -294,7 +294,7 @@ impl Substitute for syn::TypeImplTrait {
             .map(|x| x.substitute(substitutions))
             .multi_cartesian_product()
             .map(|bounds| Self {
-                bounds: bounds.into_iter().collect(),
+                bounds: repunctuate(&self.bounds, bounds),
                 ..self.clone()
             })
             .collect()
@@ -519,7 +519,7 @@ impl Substitute for syn::TypeTraitObject {
             .map(|bounds| bounds.substitute(substitutions))
             .multi_cartesian_product()
             .map(|bounds| Self {
-                bounds: bounds.into_iter().collect(),
+                bounds: repunctuate(&self.bounds, bounds),
                 ..self.clone()
             })
             .collect()
@@ -552,15 +552,9 @@ impl Substitute for syn::TypeTuple {
             .map(|elem| elem.substitute(substitutions))
             .multi_cartesian_product()
             .map(|elems| {
-                let mut elems = elems.into_iter().collect::<syn::punctuated::Punctuated<_, _>>();
-
                 // NOTE: `(T,)` is a tuple, `(T)` is not
-                if self.elems.trailing_punct() {
-                    elems.push_punct(Default::default());
-                }
-
                 Self {
-                    elems,
+                    elems: repunctuate(&self.elems, elems),
                     ..self.clone()
                 }
             })
